@@ -134,6 +134,10 @@ class Run:
         for f in R['failed']:
             msg = '%s/%s: %s: %s' % (f['file'], f['fn'], f['error'], f['detail'][-1500:])
             (self.broken if f['error'] == 'crash' else self.undecided).append(msg)
+        L = cproof.prove_lemmas(sorted({r for r, _ in tasks}), timeout_ms=timeout_ms, consts=consts)
+        R['vcs'] += L['vcs']; R['failed'] += L['failed']
+        for f in L['failed']:
+            self.broken.append('%s/%s: %s' % (f['file'], f['fn'], f['detail'][-1500:]))
         self.functions += R['functions']; self.vcs += R['vcs']; self.covers += R['covers']
         for fi in R['functions']:
             self.trusted.update(fi['trusted'])
@@ -173,8 +177,17 @@ class Run:
         return R
 
     def _verdict(self, relpath, fn, kind, text, vs, consts):
-        cf = contract.REGISTRY[relpath]; K = cf.kernels[fn]
+        cf = contract.REGISTRY[relpath]
         key = dict(function=fn, file=relpath, kind=kind, clause=text)
+        if kind == 'lemma':
+            statuses = sorted({v['status'] for v in vs})
+            what = 'lemma %s (over spec functions only) is not discharged (%s): %s' % (fn, '/'.join(statuses), (text or '')[:200])
+            if 'sat' in statuses:
+                self.violation(key, what, witness=None, solver=[dict(id=v['id'], status=v['status']) for v in vs], noinput=True)
+            else:
+                self.undecided.append(what)
+            return
+        K = cf.kernels[fn]
         statuses = sorted({v['status'] for v in vs})
         solver = [dict(id=v['id'], status=v['status'], backend=v.get('backend'), reason=v.get('reason', ''), note=v['note'], line=v['line']) for v in vs[:8]]
         if any(s == 'error' for s in statuses):
@@ -204,9 +217,12 @@ class Run:
                         witness = dict(function=fn, file=relpath, args=a, source='solver counter-model replayed on the real kernel (clang ASan+UBSan)',
                                        observed=dict(ret=r.get('ret'), arrays=r.get('arrays'), sanitizer=r.get('san', '')[:1500]), failed=bad)
                         break
-        # 2. refuter: enumerated concrete inputs
+        # 2. refuter: enumerated concrete inputs (prefer a failure of the same nature as the obligation)
         if witness is None:
             fails = self.refuter_hits.get((relpath, fn)) or []
+            functional = kind in ('post', 'inv-init', 'inv-pres', 'hint', 'lemma-base', 'lemma-step', 'assigns')
+            pref = [f for f in fails if (f[1][0][0] in ('post', 'assigns')) == functional]
+            fails = pref or fails
             if fails:
                 a, bad, r = fails[0]
                 witness = dict(function=fn, file=relpath, args=a, source='bounded refuter on the real kernel (clang ASan+UBSan)',
@@ -244,8 +260,8 @@ class Run:
             obligations=n_ob, discharged=n_dis, obligations_by_kind=dict(kinds), discharged_by_backend=dict(self.by_backend),
             solver_time_s=round(self.solver_time, 2), slowest=[dict(id=v['id'], time=round(v.get('time', 0), 2)) for v in slow],
             checker_cmd=self.checker_cmd, trusted_base=sorted(self.trusted) + list(self.assumptions),
-            vacuity=dict(covers=len(self.covers), reachable=sum(1 for c in self.covers if c['status'] == 'sat'),
-                         undetermined=sum(1 for c in self.covers if c['status'] not in ('sat', 'unsat')),
+            vacuity=dict(covers=len(self.covers), reachable=sum(1 for c in self.covers if c['status'] in ('sat', 'sat-relaxed')),
+                         undetermined=sum(1 for c in self.covers if c['status'] not in ('sat', 'sat-relaxed', 'unsat')),
                          contradictory=sum(1 for c in self.covers if c['status'] == 'unsat')),
             loops=dict(cut_by_invariant=sum(f['cutloops'] for f in self.functions), fully_unrolled=sum(f['unrolled'] for f in self.functions),
                        termination_proved=sum(f['terminating'] for f in self.functions),
